@@ -225,12 +225,9 @@ class MPRNLRI(Attribute, Family):
 
         offset += len_nh
 
-        # Skip a reserved bit as someone had to bug us !
-        reserved = data[offset]
+        # RFC 4760 section 3: the Reserved octet "MUST be set to 0, and SHOULD be ignored upon receipt" (it was the
+        # number of SNPAs of RFC 2858): a value other than zero was refused with a NOTIFICATION 3/0
         offset += 1
-
-        if reserved != 0:
-            raise Notify(3, 0, 'the reserved bit of MP_REACH_NLRI is not zero')
 
         # Verify there's NLRI data
         if offset >= len(data):
